@@ -30,7 +30,7 @@ TECHNIQUE = ("Hypothesis-generated seed programs x sequences of meaning-preservi
              "consecutive versions are equal up to the exact line shift (two-sided, per command)")
 RULE = (
     "case = project (single file of 2-5 planted constructs in py/ts/js/rs incl. a class at the srp.max_loc limit and an "
-    "ignore-next-line decoy, or a 2-3 file DRY / stringly-typed set; all with the documented file header so header-sensitive "
+    "ignore-next-line decoy and context-exempt literals (UPPER_CASE constants, range()), or a 2-3 file DRY / stringly-typed set; all with the documented file header so header-sensitive "
     "linters only see edits below it) + initial layout (LF/CRLF, BOM, final newline) + 1-4 edits + 4-7 commands (those of the planted "
     "constructs plus drawn others). Every consecutive pair of versions is compared for every command. Non-trivial: the version "
     "before some effective edit has >= 1 violation, and for a line-inserting edit there is a violation below and one above the "
